@@ -11,7 +11,7 @@ import (
 func init() { register("C11", propC11) }
 
 func propC11(c *Ctx) {
-	c.Explanation = "Decides structural necessary conditions of UDP datagram integrity for all inputs and schedules: (U1) every access to the receive-queue fields holds rcvMu (must-lockset); (U2) a datagram is enqueued only after the length check and the ready/closed/buffer-full test, all inside one critical section (drop-whole); (U3) the queued packet is a fresh object whose data is a Clone of the view after exactly one TrimFront(UDP header size) and no CapLength, and whose sender address is (NIC of the route, remote address of the id, source port of the header); (U4) rcvList.PushBack only in HandlePacket, Read removes the front element inside the critical section and returns that element's data and sender (FIFO, at most once), the byte accounting adds/subtracts the same packet's size; (U5) Write sends exactly one datagram per successful return with payload = Payload.Get(Payload.Size()) of the caller, local port of the endpoint and the destination port of the connect/To address, returns len(payload), and sends only after route resolution; (U6) the 16-bit UDP length cannot wrap: Write rejects payloads whose size plus the 8-byte header exceeds 65535 (interval analysis of sendUDP's narrowing conversion under that guard). (U7) the read side is closed (rcvClosed, after which HandlePacket drops whole datagrams) exactly when Shutdown is called with ShutdownRead or the endpoint is closed - no earlier shutdown state can suppress it - and nowhere else. (U8) the IPv4 reassembly key covers id, protocol and every byte of both addresses (shared with C08/F4): datagrams of different senders are never merged by reassembly. (U9) link typestate of the packet list. (U10) no examined callee error ends in a nil return in the UDP, route, IPv4/IPv6 and link packages; U5 also tables Route.WritePacket's pass-through of the network endpoint's result. NOT decided: byte equality of delivered and sent data over histories; behaviour when the UDP length field is smaller than the IP payload (trailing bytes are delivered)."
+	c.Explanation = "Decides structural necessary conditions of UDP datagram integrity for all inputs and schedules: (U1) every access to the receive-queue fields holds rcvMu (must-lockset); (U2) a datagram is enqueued only after the length check and the ready/closed/buffer-full test, all inside one critical section (drop-whole); (U3) the queued packet is a fresh object whose data is a Clone of the view after exactly one TrimFront(UDP header size) and no CapLength, and whose sender address is (NIC of the route, remote address of the id, source port of the header); (U4) rcvList.PushBack only in HandlePacket, Read removes the front element inside the critical section and returns that element's data and sender (FIFO, at most once), the byte accounting adds/subtracts the same packet's size; (U5) Write sends exactly one datagram per successful return with payload = Payload.Get(Payload.Size()) of the caller, local port of the endpoint and the destination port of the connect/To address, returns len(payload), and sends only after route resolution; (U6) the 16-bit UDP length cannot wrap: Write rejects payloads whose size plus the 8-byte header exceeds 65535 (interval analysis of sendUDP's narrowing conversion under that guard). (U7) the read side is closed (rcvClosed, after which HandlePacket drops whole datagrams) exactly when Shutdown is called with ShutdownRead or the endpoint is closed - no earlier shutdown state can suppress it - and nowhere else. (U8) the IPv4 reassembly key covers id, protocol and every byte of both addresses (shared with C08/F4): datagrams of different senders are never merged by reassembly. (U9) link typestate of the packet list. (U10) no examined callee error ends in a nil return in the UDP, route, IPv4/IPv6 and link packages; U5 also tables Route.WritePacket's pass-through of the network endpoint's result. (U11) the receive queue is a correct doubly-linked list. (U12) the IPv4 inbound path hands up exactly the payload (shared with C08/F4). U5 also tables prepareForWrite. NOT decided: byte equality of delivered and sent data over histories; behaviour when the UDP length field is smaller than the IP payload (trailing bytes are delivered)."
 	c.Assumptions = []string{"tcpip.Payload.Get(n) returns at most n bytes", "header accessors are pure between the guard and the use in HandlePacket"}
 	u1 := c.Rule("U1", "K4 lockset", "receive queue fields only under rcvMu", 20)
 	c.Locks().CheckGuards(c, u1, guardsUDP, nil)
@@ -280,6 +280,9 @@ func propC11(c *Ctx) {
 	}
 	u11 := c.Rule("U11", "K7 site tables (closed)", "the receive queue is a correct doubly-linked list: PushBack, Remove, Front, links", 15)
 	c.ListImpl(u11, "udp", "udpPacketList", "udpPacketEntry", "udpPacketElementMapper", "PushBack", "Remove")
+
+	u12 := c.Rule("U12", "K9 site table (shared with C08/F4)", "the IPv4 layer hands up exactly the datagram's payload: header removed by its own length, payload capped to the total length on every path", 6)
+	ipv4InboundRule(c, u12)
 
 	u9 := c.Rule("U9", "typestate", "a queued datagram's list links are not read after its removal unless Remove preserves them", 2)
 	c.LinkTypestate(u9, "udp.udpPacketList", "udp.udpPacketEntry")
